@@ -41,17 +41,31 @@ Definition pwrite (file : list Z) (off : Z) (d : list Z) : list Z :=
 Definition splice (v : list Z) (p : Z) (d : list Z) : list Z := ztake p v ++ d ++ zdrop (p + zlen d) v.
 
 (* ---------------------------------------------------------------------------------------------- *)
-Record quirks := mkQ { q_mul_ge : bool; q_copy_ensures : bool; q_copy_src : bool }.
-Definition tree_quirks : quirks := mkQ EXF_MUL_GE_NSIZE EXF_COPY_ENSURES EXF_COPY_SRC_CHECKED.
-Definition fixed_quirks : quirks := mkQ true true true.
-Definition orig_quirks : quirks := mkQ false false false.
+(* places where the tree may be in its unrepaired or repaired form (behavioural facts, tools/probes/probe_exf.c):
+   q_mul_ge / q_copy_ensures / q_copy_src: repaired in the current tree (428feb8, c774cc5);
+   q_copy_fwd:     iwp_copy_bytes carries out a forward-overlapping copy (back to front) instead of IW_ERROR_OVERFLOW;
+   q_acq_unlocks:  _exfile_acquire_mmap releases the read lock when it answers IWFS_ERROR_NOT_MMAPED;
+   q_maxoff_small: iwfs_exfile_open rejects a maximum offset below one page instead of treating it as "unlimited" *)
+Record quirks := mkQ { q_mul_ge : bool; q_copy_ensures : bool; q_copy_src : bool;
+                       q_copy_fwd : bool; q_acq_unlocks : bool; q_maxoff_small : bool }.
+Definition tree_quirks : quirks :=
+  mkQ EXF_MUL_GE_NSIZE EXF_COPY_ENSURES EXF_COPY_SRC_CHECKED EXF_COPY_FWD_OK EXF_ACQ_FAIL_UNLOCKS EXF_SMALL_MAXOFF_REJECTED.
+Definition fixed_quirks : quirks := mkQ true true true true true true.
+Definition orig_quirks : quirks := mkQ false false false false false false.
 
 Definition EXF_CRASH : Z := -1.
 
-(* the operating system as seen by one call: may the file grow to n bytes? *)
-Definition os_ok := Z -> bool.
-Definition os_any : os_ok := fun _ => true.                 (* no refusal *)
-Definition os_limit (l : Z) : os_ok := fun n => n <=? l.    (* RLIMIT_FSIZE = l *)
+(* the operating system as seen by one call:
+   os_grow n = may the file grow to n bytes (ftruncate/fallocate; false = EFBIG/ENOSPC/EDQUOT);
+   os_map t  = may a window be mapped when the windows of this file then hold t bytes of address space in total
+               (mmap; false = ENOMEM: RLIMIT_AS, vm.max_map_count, exhausted address space) *)
+Record os_ok := mkOs { os_grow : Z -> bool; os_map : Z -> bool }.
+Definition os_any : os_ok := mkOs (fun _ => true) (fun _ => true).                 (* no refusal *)
+Definition os_limit (l : Z) : os_ok := mkOs (fun n => n <=? l) (fun _ => true).    (* RLIMIT_FSIZE = l *)
+Definition os_maplimit (b : Z) : os_ok := mkOs (fun _ => true) (fun t => t <=? b). (* RLIMIT_AS leaves b bytes for windows *)
+Definition os_limits (l b : option Z) : os_ok :=
+  mkOs (fun n => match l with Some l => n <=? l | None => true end)
+       (fun t => match b with Some b => t <=? b | None => true end).
 
 Record slot := mkSlot {
   s_off : Z;                            (* MMAPSLOT.off *)
@@ -107,24 +121,53 @@ Definition policy_call (q : quirks) (ps : Z) (p : policy) (nsize csize : Z) : Z 
 Definition slot_nlen (fsz : Z) (s : slot) : Z :=
   if s_off s >=? fsz then 0 else Z.min (s_maxlen s) (fsz - s_off s).
 
-Definition initmmap_slot (ps fsz : Z) (s : slot) : slot :=
+(* bytes of address space held by the windows of a list *)
+Definition mapped_total (ss : list slot) : Z := fold_right (fun s a => s_len s + a) 0 ss.
+
+(* one slot: nothing to do when the length is right; otherwise the old mapping is dropped (munmap) and, when the new
+   length is not zero, mmap is asked for it - `others` is what the other windows hold.  A refused mmap leaves the slot
+   unmapped (len = 0, mmap = 0: readers and writers fall back to the file) and answers IW_ERROR_ERRNO. *)
+Definition initmmap_slot (ok : os_ok) (ps fsz others : Z) (s : slot) : Z * slot :=
   let nlen := slot_nlen fsz s in
-  if nlen =? s_len s then s
-  else mkSlot (s_off s) (s_maxlen s) nlen (s_priv s) (repeat None (Z.to_nat (nlen / ps))).
+  if nlen =? s_len s then (0, s)
+  else if (nlen >? 0) && negb (os_map ok (others + nlen)) then
+    (EXF_E_ERRNO, mkSlot (s_off s) (s_maxlen s) 0 (s_priv s) [])
+  else (0, mkSlot (s_off s) (s_maxlen s) nlen (s_priv s) (repeat None (Z.to_nat (nlen / ps)))).
 
-Definition initmmap (ps fsz : Z) (ss : list slot) : list slot := map (initmmap_slot ps fsz) ss.
+(* _exfile_initmmap_lw: the slots in list order, stops at the first slot that cannot be mapped (the later ones keep
+   what they had); `before` = bytes held by the slots already visited *)
+Fixpoint initmmap_from (ok : os_ok) (ps fsz before : Z) (ss : list slot) : Z * list slot :=
+  match ss with
+  | [] => (0, [])
+  | s :: tl =>
+    let '(rc, s') := initmmap_slot ok ps fsz (before + mapped_total tl) s in
+    if rc =? 0 then
+      let '(rc', tl') := initmmap_from ok ps fsz (before + s_len s') tl in (rc', s' :: tl')
+    else (rc, s' :: tl)
+  end.
+Definition initmmap (ok : os_ok) (ps fsz : Z) (ss : list slot) : Z * list slot := initmmap_from ok ps fsz 0 ss.
 
-(* _exfile_truncate_lw (no listener, write mode).  A refused growth: impl->fsize = size; iwp_fallocate fails;
-   truncfail: impl->fsize = old_size; _exfile_initmmap_lw(f) - the windows are re-derived from the old size *)
+(* _exfile_truncate_lw (no listener, write mode).
+   A refused growth: impl->fsize = size; iwp_fallocate fails; truncfail: impl->fsize = old_size; _exfile_initmmap_lw(f) -
+   the windows are re-derived from the old size (the first error code is the one reported).
+   Windows that cannot follow a growth: the file has grown already; iwp_ftruncate(old_size) gives the space back, then
+   truncfail.  Windows that cannot follow a shrink: the file has not been cut yet (initmmap comes first); truncfail. *)
 Definition truncate_lw (ok : os_ok) (st : exf) (size : Z) : Z * exf :=
   let size := IW_ROUNDUP (uw 64 size) (psize st) in
   let old := fsize st in
   if old =? size then (0, st)
   else if old <? size then
     if negb (maxoff st =? 0) && (size >? maxoff st) then (EXF_E_MAXOFF, st)
-    else if negb (ok size) then (EXF_E_IO, set_slots st (initmmap (psize st) old (slots st)))
-    else (0, mkExf (ftrunc (file st) size) size (maxoff st) (psize st) (initmmap (psize st) size (slots st)) (pol st))
-  else (0, mkExf (ftrunc (file st) size) size (maxoff st) (psize st) (initmmap (psize st) size (slots st)) (pol st)).
+    else if negb (os_grow ok size) then (EXF_E_IO, set_slots st (snd (initmmap ok (psize st) old (slots st))))
+    else
+      let '(rc, ss1) := initmmap ok (psize st) size (slots st) in
+      if rc =? 0 then (0, mkExf (ftrunc (file st) size) size (maxoff st) (psize st) ss1 (pol st))
+      else (rc, mkExf (ftrunc (ftrunc (file st) size) old) old (maxoff st) (psize st)
+                      (snd (initmmap ok (psize st) old ss1)) (pol st))
+  else
+    let '(rc, ss1) := initmmap ok (psize st) size (slots st) in
+    if rc =? 0 then (0, mkExf (ftrunc (file st) size) size (maxoff st) (psize st) ss1 (pol st))
+    else (rc, set_slots st (snd (initmmap ok (psize st) old ss1))).
 
 (* _exfile_ensure_size_lw *)
 Definition ensure_size_lw (q : quirks) (ok : os_ok) (st : exf) (sz : Z) : Z * exf :=
@@ -174,6 +217,7 @@ Definition win_write (ps : Z) (file : list Z) (s : slot) (p : Z) (d : list Z) : 
   let n := zlen d in
   if in_win s p n then
     if s_priv s then
+      if n =? 0 then Some (s, file) else            (* memcpy/memmove of nothing touches no page *)
       let v := splice (win_view ps file s) p d in
       Some (mkSlot (s_off s) (s_maxlen s) (s_len s) true (cow_pages ps v (p / ps) ((p + n - 1) / ps) 0 (s_pages s)), file)
     else Some (s, pwrite file (s_off s + p) d)
@@ -298,8 +342,20 @@ Fixpoint copy_loop (fuel : nat) (f : list Z) (off siz noff pos : Z) : list Z :=
     else f
   end.
 
-Definition file_copy (f : list Z) (off siz noff : Z) : Z * list Z :=
-  if negb (IW_RANGES_OVERLAP off (off + siz) noff (noff + siz) =? 0) && (noff >? off) then (EXF_E_OVERFLOW, f)
+(* the repaired variant of the forward-overlapping case: the chunks are moved back to front *)
+Fixpoint copy_loop_back (fuel : nat) (f : list Z) (off noff pos : Z) : list Z :=
+  match fuel with
+  | O => f
+  | S k =>
+    if 0 <? pos then
+      let c := Z.min COPY_CHUNK pos in
+      copy_loop_back k (pwrite f (noff + pos - c) (pread f (off + pos - c) c)) off noff (pos - c)
+    else f
+  end.
+
+Definition file_copy (q : quirks) (f : list Z) (off siz noff : Z) : Z * list Z :=
+  if negb (IW_RANGES_OVERLAP off (off + siz) noff (noff + siz) =? 0) && (noff >? off) then
+    if q_copy_fwd q then (0, copy_loop_back (S (Z.to_nat siz)) f off noff siz) else (EXF_E_OVERFLOW, f)
   else (0, copy_loop (S (Z.to_nat siz)) f off siz noff 0).
 
 (* _exfile_copy *)
@@ -307,7 +363,7 @@ Definition exfile_copy (q : quirks) (ok : os_ok) (st : exf) (off siz noff : Z) :
   let '(rc0, st0) := if q_copy_ensures q then ensure_size_lw q ok st (sw 64 (noff + siz)) else (0, st) in
   if negb (rc0 =? 0) then (rc0, st0)
   else
-    let via_file := let '(rc, f') := file_copy (file st0) off siz noff in (rc, set_file st0 f') in
+    let via_file := let '(rc, f') := file_copy q (file st0) off siz noff in (rc, set_file st0 f') in
     match slots st0 with
     | s :: tl =>
       if (0 <? s_len s) && (s_off s =? 0) && (s_len s >=? uw 64 (noff + siz)) then
@@ -343,18 +399,20 @@ Definition round_maxlen (ps off maxlen : Z) : Z :=
   let tmp := IW_ROUNDUP maxlen ps in
   if (tmp <? maxlen) || (EXF_OFF_T_MAX - off <? tmp) then IW_ROUNDOWN maxlen ps else tmp.
 
-Definition add_mmap_lw (st : exf) (off maxlen flags : Z) : Z * exf :=
+Definition add_mmap_lw (ok : os_ok) (st : exf) (off maxlen flags : Z) : Z * exf :=
   if negb (aligned off (psize st)) then (EXF_E_NOT_ALIGNED, st)
   else
     let maxlen := round_maxlen (psize st) off maxlen in
     if maxlen =? 0 then (EXF_E_OOB, st)
     else
-      let ns := initmmap_slot (psize st) (fsize st)
-                  (mkSlot off maxlen 0 (negb (Z.land flags EXF_MMAP_PRIVATE =? 0)) []) in
-      match insert_slot (slots st) ns with
-      | Some ss' => (0, set_slots st ss')
-      | None => (EXF_E_OVERLAP, st)
-      end.
+      let '(rc, ns) := initmmap_slot ok (psize st) (fsize st) (mapped_total (slots st))
+                         (mkSlot off maxlen 0 (negb (Z.land flags EXF_MMAP_PRIVATE =? 0)) []) in
+      if negb (rc =? 0) then (rc, st)                 (* the new window is mapped before the overlap test *)
+      else
+        match insert_slot (slots st) ns with
+        | Some ss' => (0, set_slots st ss')
+        | None => (EXF_E_OVERLAP, st)
+        end.
 
 (* _exfile_remove_mmap_lw *)
 Fixpoint remove_slot (ss : list slot) (off : Z) : option (list slot) :=
@@ -378,17 +436,46 @@ Fixpoint probe_mmap (ss : list slot) (off : Z) : Z * Z :=
                else probe_mmap tl off
   end.
 
-(* _exfile_remap_all *)
-Definition remap_all (st : exf) : exf := set_slots st (initmmap (psize st) (fsize st) (slots st)).
+(* _exfile_acquire_mmap: rc, *sp (the read lock it keeps on success is outside the model: single caller, use_locks = 0) *)
+Fixpoint acquire_mmap (ss : list slot) (off : Z) : Z * Z :=
+  match ss with
+  | [] => (EXF_E_NOTMM, 0)
+  | s :: tl => if s_off s =? off then (if negb (s_len s =? 0) then (0, s_len s) else (EXF_E_NOTMM, 0))
+               else acquire_mmap tl off
+  end.
+
+(* _exfile_sync_mmap_lr (msync itself does not fail in the model) *)
+Fixpoint sync_mmap (ss : list slot) (off : Z) : Z :=
+  match ss with
+  | [] => EXF_E_NOTMM
+  | s :: tl => if s_off s =? off then (if s_len s =? 0 then EXF_E_NOTMM else 0) else sync_mmap tl off
+  end.
+
+(* _exfile_remap_all: rc of _exfile_initmmap_lw, the slots as it left them *)
+Definition remap_all (ok : os_ok) (st : exf) : Z * exf :=
+  let '(rc, ss) := initmmap ok (psize st) (fsize st) (slots st) in (rc, set_slots st ss).
 
 (* iwfs_exfile_open on an existing kernel file `f` (empty list = new file), write mode; when the initial
    growth is refused the handle is not created (the caller must ignore the state returned with rc <> 0) *)
-Definition exfile_open (ok : os_ok) (f : list Z) (initial maxoff_opt : Z) (p : policy) : Z * exf :=
+Definition exfile_open (q : quirks) (ok : os_ok) (f : list Z) (initial maxoff_opt : Z) (p : policy) : Z * exf :=
   let ps := EXF_PSIZE in
   let mo := if maxoff_opt >=? ps then IW_ROUNDOWN maxoff_opt ps else 0 in
   let st := mkExf f (zlen f) mo ps [] p in
-  if zlen f <? initial then truncate_lw ok st initial
+  if q_maxoff_small q && (0 <? maxoff_opt) && (maxoff_opt <? ps) then (EXF_E_INVARGS, st)
+  else if zlen f <? initial then truncate_lw ok st initial
   else if negb (aligned (zlen f) ps) then truncate_lw ok st (zlen f)
+  else (0, st).
+
+(* the same on a file opened read-only (omode = IWFS_OREAD): _exfile_truncate_lw answers IW_ERROR_READONLY whenever the size
+   would have to change - an initial size above the length of the file, or a length that is not a multiple of the page size *)
+Definition exfile_open_ro (q : quirks) (f : list Z) (initial maxoff_opt : Z) (p : policy) : Z * exf :=
+  let ps := EXF_PSIZE in
+  let mo := if maxoff_opt >=? ps then IW_ROUNDOWN maxoff_opt ps else 0 in
+  let st := mkExf f (zlen f) mo ps [] p in
+  let trunc_ro size := if zlen f =? IW_ROUNDUP (uw 64 size) ps then (0, st) else (EXF_E_READONLY, st) in
+  if q_maxoff_small q && (0 <? maxoff_opt) && (maxoff_opt <? ps) then (EXF_E_INVARGS, st)
+  else if zlen f <? initial then trunc_ro initial
+  else if negb (aligned (zlen f) ps) then trunc_ro (zlen f)
   else (0, st).
 
 (* ---------------------------------------------------------------------------------------------- *)
@@ -402,7 +489,12 @@ Inductive op :=
 | OAddMmap (off maxlen flags : Z)
 | ORemoveMmap (off : Z)
 | ORemap
-| OSync.
+| OSync
+| OProbe (off : Z)            (* probe_mmap: rc, length of the window *)
+| OAcquire (off : Z)          (* acquire_mmap: rc, length of the window *)
+| ORelease                    (* release_mmap *)
+| OSyncMmap (off : Z)         (* sync_mmap *)
+| OState.                     (* state: rc, fsize *)
 
 Record out := mkOut { o_rc : Z; o_sp : Z; o_data : list Z }.
 
@@ -413,11 +505,43 @@ Definition step (q : quirks) (ok : os_ok) (st : exf) (o : op) : out * exf :=
   | OCopy off siz noff => let '(rc, st') := exfile_copy q ok st off siz noff in (mkOut rc 0 [], st')
   | OTruncate sz => let '(rc, st') := truncate_lw ok st sz in (mkOut rc 0 [], st')
   | OEnsure sz => let '(rc, st') := ensure_size_lw q ok st sz in (mkOut rc 0 [], st')
-  | OAddMmap off maxlen flags => let '(rc, st') := add_mmap_lw st off maxlen flags in (mkOut rc 0 [], st')
+  | OAddMmap off maxlen flags => let '(rc, st') := add_mmap_lw ok st off maxlen flags in (mkOut rc 0 [], st')
   | ORemoveMmap off => let '(rc, st') := remove_mmap_lw st off in (mkOut rc 0 [], st')
-  | ORemap => (mkOut 0 0 [], remap_all st)
+  | ORemap => let '(rc, st') := remap_all ok st in (mkOut rc 0 [], st')
   | OSync => (mkOut 0 0 [], st)
+  | OProbe off => let '(rc, sp) := probe_mmap (slots st) off in (mkOut rc sp [], st)
+  | OAcquire off => let '(rc, sp) := acquire_mmap (slots st) off in (mkOut rc sp [], st)
+  | ORelease => (mkOut 0 0 [], st)
+  | OSyncMmap off => (mkOut (sync_mmap (slots st) off) 0 [], st)
+  | OState => (mkOut 0 (fsize st) [], st)
   end.
+
+(* ---------------------------------------------------------------------------------------------- *)
+(* the read/write lock of the handle (use_locks = 1), one caller.  `held` = read locks the caller still holds: a successful
+   acquire_mmap keeps one until release_mmap.  A call that needs the write lock while the caller holds a read lock never
+   returns (pthread_rwlock_wrlock waits for the reader, which is the caller itself): outcome EXF_HANG. *)
+Definition EXF_HANG : Z := -2.
+
+Definition needs_wlock (st : exf) (o : op) : bool :=
+  match o with
+  | OTruncate _ | OAddMmap _ _ _ | ORemoveMmap _ | ORemap => true
+  | OWrite off d =>
+    let end_ := sw 64 (off + zlen d) in
+    negb ((off <? 0) || (end_ <? 0)) && negb (negb (maxoff st =? 0) && (uw 64 (off + zlen d) >? maxoff st)) && (end_ >? fsize st)
+  | OEnsure sz => negb (fsize st >=? sz)
+  | _ => false
+  end.
+
+Definition lstep (q : quirks) (ok : os_ok) (held : Z) (st : exf) (o : op) : out * Z * exf :=
+  if needs_wlock st o && (0 <? held) then (mkOut EXF_HANG 0 [], held, st)
+  else
+    let '(r, st') := step q ok st o in
+    let held' := match o with
+                 | OAcquire _ => if o_rc r =? 0 then held + 1 else if q_acq_unlocks q then held else held + 1
+                 | ORelease => held - 1
+                 | _ => held
+                 end in
+    (r, held', st').
 
 Fixpoint run (q : quirks) (ok : os_ok) (st : exf) (os : list op) : list out * exf :=
   match os with
@@ -446,7 +570,7 @@ Definition spec_resize (a : flat) (n : Z) (p : policy) : flat := mkFlat (ftrunc 
 (* a size change the rules allow: carried out, unless it is a growth the operating system refuses - then the
    answer is an I/O error and not one byte changes (the policy has been consulted: its context may have advanced) *)
 Definition spec_grow (ok : os_ok) (a : flat) (n : Z) (p : policy) : Z * flat :=
-  if (zlen (a_bytes a) <? n) && negb (ok n) then (EXF_E_IO, mkFlat (a_bytes a) (a_maxoff a) p)
+  if (zlen (a_bytes a) <? n) && negb (os_grow ok n) then (EXF_E_IO, mkFlat (a_bytes a) (a_maxoff a) p)
   else (0, spec_resize a n p).
 
 (* size request: grow (never shrink) to the size the policy names, limited by maxoff *)
@@ -475,6 +599,16 @@ Definition spec_read (a : flat) (off n : Z) : list Z := pread (a_bytes a) off n.
 
 Definition abs (st : exf) : flat := mkFlat (file st) (maxoff st) (pol st).
 
+(* what a reader sees when MAP_PRIVATE windows are registered: the file with the content of every mapped private
+   window (its detached pages; untouched pages still show the file) laid over it.  Without private windows it is the file. *)
+Fixpoint overlay (ps : Z) (f v : list Z) (ss : list slot) : list Z :=
+  match ss with
+  | [] => v
+  | s :: tl => overlay ps f (if s_priv s && (0 <? s_len s) then splice v (s_off s) (win_view ps f s) else v) tl
+  end.
+Definition view (st : exf) : list Z := overlay (psize st) (file st) (file st) (slots st).
+Definition vabs (st : exf) : flat := mkFlat (view st) (maxoff st) (pol st).
+
 (* copy: the size request for the destination, then the bytes of the source range that exist are moved;
    a forward-overlapping copy may be refused (documented "todo" of iwp_copy_bytes) *)
 Definition spec_copy (ps : Z) (ok : os_ok) (a : flat) (off siz noff rc : Z) (a' : flat) : Prop :=
@@ -484,16 +618,25 @@ Definition spec_copy (ps : Z) (ok : os_ok) (a : flat) (off siz noff rc : Z) (a' 
     \/ (rc = EXF_E_OVERFLOW /\ off < noff < off + siz /\ a' = a1)
   else rc = rc1 /\ a' = a1.
 
+(* the flat array has no windows; what it says about a call during which the operating system refuses to map a window:
+   the answer is IW_ERROR_ERRNO, nothing is transferred and not one byte changes (the resize policy may have been
+   consulted) - and this answer is possible only if the operating system does refuse some mapping *)
+Definition spec_mapfail (ok : os_ok) (a : flat) (r : out) (a' : flat) : Prop :=
+  o_rc r = EXF_E_ERRNO /\ o_sp r = 0 /\ o_data r = [] /\ a_bytes a' = a_bytes a /\ a_maxoff a' = a_maxoff a /\
+  exists t, os_map ok t = false.
+
 (* what the flat array machine allows as the answer `r` and next state `a'` of one call; registering,
-   removing and remapping windows and sync do not change it *)
+   removing, remapping, probing and syncing windows do not change it *)
 Definition spec_step_rel (ps : Z) (ok : os_ok) (a : flat) (o : op) (r : out) (a' : flat) : Prop :=
   match o with
-  | OWrite off d => spec_write ps ok a off d = (o_rc r, o_sp r, a')
+  | OWrite off d => spec_write ps ok a off d = (o_rc r, o_sp r, a') \/ spec_mapfail ok a r a'
   | ORead off n => o_rc r = 0 /\ o_data r = spec_read a off n /\ o_sp r = zlen (o_data r) /\ a' = a
-  | OCopy off siz noff => spec_copy ps ok a off siz noff (o_rc r) a'
-  | OTruncate sz => spec_truncate ps ok a sz = (o_rc r, a')
-  | OEnsure sz => spec_ensure ps ok a sz = (o_rc r, a')
-  | OAddMmap _ _ _ | ORemoveMmap _ | ORemap | OSync => a' = a
+  | OCopy off siz noff => spec_copy ps ok a off siz noff (o_rc r) a' \/ spec_mapfail ok a r a'
+  | OTruncate sz => spec_truncate ps ok a sz = (o_rc r, a') \/ spec_mapfail ok a r a'
+  | OEnsure sz => spec_ensure ps ok a sz = (o_rc r, a') \/ spec_mapfail ok a r a'
+  | OAddMmap _ _ _ | ORemap => a' = a /\ (o_rc r = EXF_E_ERRNO -> exists t, os_map ok t = false)
+  | ORemoveMmap _ | OSync | OProbe _ | OAcquire _ | ORelease | OSyncMmap _ => a' = a
+  | OState => a' = a /\ o_rc r = 0 /\ o_sp r = zlen (a_bytes a)
   end.
 
 Inductive spec_run_rel (ps : Z) (ok : os_ok) : flat -> list op -> list out -> flat -> Prop :=
